@@ -709,7 +709,9 @@ func replayAll(prog *interp.Program, pool *interp.Pool, repo, vd, prop string, c
 	// 2. native replay for //verif:native harnesses
 	var native []replayCase
 	for _, c := range cases {
-		if prog.Harnesses[c.Harness].Native {
+		// assertions over ghost state (lock discipline) have no native
+		// observable: they replay in the interpreter only
+		if prog.Harnesses[c.Harness].Native && !strings.Contains(c.Expect, "(ghost)") {
 			native = append(native, c)
 		}
 	}
